@@ -6,8 +6,9 @@ the extractor on this run equal what the thread model assumes (`pollImpl`, `halt
 `stepT`: the flag alone decides, the consulted context only chooses the returned value, no
 step lowers the flag).  An edit that makes the halt test depend on the context the callee
 was handed, adds a second test, or lowers the flag anywhere in `eval` / `callFunction` /
-`callObject` (its Go-level defer that runs the deferred calls of a frame included) breaks a
-named lemma.
+`callObject` (its Go-level defer that runs the deferred calls of a frame included), or hands
+the top-level code of an imported module another context than the importer's, breaks a named
+lemma.
 -/
 namespace Risor.C06
 open Risor.Generated.C06
@@ -51,5 +52,30 @@ theorem callee_ctx_reaches_eval_tie :
 theorem deferred_calls_run_under_the_flag_tie :
     (deferRunnerCount = 1 ∧ deferRunnerLoopFirst = true ∧ deferRunnerCall = expectDeferRunnerCall) ∧
     (deferRunnerTouchesHalt = false ∧ callFunctionHaltWrites = []) := by decide
+
+/-- the top-level code of an imported module runs under the importer's context:
+    `importModule(ctx context.Context, …)` evaluates it with exactly one `vm.eval(ctx)`, never
+    reassigns `ctx` and derives no context at all (no call into package `context`), and every
+    call of `vm.importModule` in `eval` (`op.Import`, twice in `op.FromImport`) passes the `ctx`
+    `eval` was handed, which `eval` never reassigns (model: code inside an `.imp` frame is
+    stepped with the same signal as the code around it and what it spawns is an ordinary
+    thread of the system — `Props.stepImp_follows`, `Props.import_body_blocked_unblocks`,
+    `Props.C06_partial_import`; the forbidden variant is `stepImp .detached`,
+    `Props.importDetached_not_stopped`, `Props.inherited_ctx_never_fires_never_stops`) -/
+theorem import_body_runs_under_importers_ctx_tie :
+    (importModuleFirstParam = expectImportFirstParam ∧ importModuleEvalArgs = expectImportEvalArgs ∧
+      importModuleReassignsCtx = false ∧ importModuleDerivesCtx = false) ∧
+    (importModuleCallCtxArgs = expectImportCallCtxArgs ∧ evalReassignsCtx = false) := by decide
+
+/-- an `import` reached after the context has fired starts nothing: `importModule` asks the
+    importer with the context it was given (`vm.importer.Import(ctx, name)`), the local importer
+    hands it through `parseAndCompile` to `parser.Parse(ctx, …)` unchanged, and the statement
+    loop of `Parser.Parse` opens with `select { case <-ctx.Done(): return nil, ctx.Err() … }`
+    (model: `stepT` on `.cb .imp` with the context fired raises the context's error;
+    `Props.import_after_cancellation_fails`) -/
+theorem import_parse_observes_ctx_tie :
+    importerCallArgs = expectImporterCallArgs ∧
+    (localImporterCtxChain = expectLocalImporterCtxChain ∧ localImporterReassignsCtx = false) ∧
+    parserCtxCheck = expectParserCtxCheck := by decide
 
 end Risor.C06
